@@ -34,7 +34,7 @@ class Random(Component):
         return gen.set_join_case(tier)
 
     def check(self, case, ctx):
-        L, R = canon.build_table(case["L"]), canon.build_table(case["R"])
+        L, R = canon.build_pair(case)
         tok = mk_tok(case["tok"])
         df = calls.run_join(ctx, case, L, R, tok)
         if df is None:
